@@ -161,11 +161,19 @@ func (_this *interfaceBuilder) BuildFromMedia(ctx *Context, mediaType string, da
 }
 
 func (_this *interfaceBuilder) BuildFromTime(ctx *Context, value compact_time.Time, dst reflect.Value) reflect.Value {
-	if gTime, err := value.AsGoTime(); err == nil {
-		dst.Set(reflect.ValueOf(gTime))
-	} else {
-		dst.Set(reflect.ValueOf(value))
+	// Go time is only used when it holds exactly what the document holds:
+	// dates, times of day, leap seconds, UTC offsets and lat/long time zones
+	// have no time.Time counterpart that would be marshaled back unchanged.
+	if value.Type == compact_time.TimeTypeTimestamp {
+		if gTime, err := value.AsGoTime(); err == nil {
+			asCompact := compact_time.AsCompactTime(gTime)
+			if asCompact.IsEquivalentTo(value) {
+				dst.Set(reflect.ValueOf(gTime))
+				return dst
+			}
+		}
 	}
+	dst.Set(reflect.ValueOf(value))
 	return dst
 }
 
